@@ -791,6 +791,90 @@ fn generated(o: &mut Outcome, rng: &mut Rng, thorough: bool) {
     }
 }
 
+// ------------------------------------------------------------------ (2b) runs of reorderable declarations, selection between them
+
+/// A run of `use` / `extern crate` declarations (badly laid out, unsorted) whose members are separated by blank lines,
+/// comment lines or attribute lines, and a selection that consists ONLY of such separating lines: no declaration
+/// intersects it, so every declaration must come out byte for byte and in its place - whatever `group_imports` and
+/// `reorder_imports` say (the reordering may only look at the members themselves; F7 is the known exception where a
+/// MEMBER is selected).
+fn import_gaps(o: &mut Outcome, rng: &mut Rng, thorough: bool) {
+    let n = if thorough { 3000 } else { 150 };
+    let roots = ["std", "core", "alloc", "crate", "zeta", "alpha", "super", "mid"];
+    let mut cases: Vec<(String, Vec<R>, Vec<(String, String)>, Vec<String>)> = vec![];
+    for k in 0..n {
+        let extern_run = rng.chance(1, 5);
+        let m = rng.range(2, 5);
+        let mut lines: Vec<String> = vec![];
+        let mut decl: Vec<String> = vec![];
+        let mut gaps: Vec<usize> = vec![];
+        let mut names: Vec<usize> = (0..m).collect();
+        // unsorted on purpose: descending
+        names.reverse();
+        for (i, j) in names.iter().enumerate() {
+            if i > 0 {
+                match rng.below(3) {
+                    0 => { lines.push(String::new()); gaps.push(lines.len()); }
+                    1 => { lines.push(format!("// note {} stays with the imports", k)); gaps.push(lines.len()); }
+                    _ => { lines.push("#[cfg( test )]".to_string()); gaps.push(lines.len()); }
+                }
+            }
+            let d = if extern_run { format!("extern  crate  c{}{} ;", j, k) } else { format!("use  {}::m{}::{{T{} ,  A{}}} ;", rng.pick(&roots), j, j, j) };
+            lines.push(d.clone());
+            decl.push(d);
+        }
+        lines.push(String::new());
+        let f = format!("pub fn  f{}( a : u32 )->u32 {{ a }}", k);
+        lines.push(f.clone());
+        decl.push(f);
+        if gaps.is_empty() {
+            continue;
+        }
+        let mut sel: Vec<R> = vec![];
+        let g = *rng.pick(&gaps);
+        sel.push((g, g));
+        if rng.chance(1, 3) {
+            let g2 = *rng.pick(&gaps);
+            if g2 != g { sel.push((g2, g2)); }
+        }
+        let mut cfg: Vec<(String, String)> = vec![];
+        match rng.below(4) {
+            0 => {}
+            1 => cfg.push(("group_imports".into(), "StdExternalCrate".into())),
+            2 => cfg.push(("group_imports".into(), "One".into())),
+            _ => { cfg.push(("group_imports".into(), "StdExternalCrate".into())); cfg.push(("imports_granularity".into(), "Crate".into())); }
+        }
+        if rng.chance(1, 6) { cfg.push(("reorder_imports".into(), "false".into())); }
+        cases.push((lines.join("\n") + "\n", sel, cfg, decl));
+    }
+    let jobs_v: Vec<Job> = cases.iter().map(|(src, sel, cfg, _)| Job { src: src.clone(), cfg: cfg.clone(), file_lines: Some(sel_json(sel)) }).collect();
+    let res = pool::run_jobs(&jobs_v, jobs(), Duration::from_secs(10));
+    for ((src, sel, cfg, decl), r) in cases.iter().zip(res.iter()) {
+        if !usable(r) {
+            o.count("import-gaps:unusable");
+            continue;
+        }
+        o.direct_evals += 1;
+        o.direct_distinct += 1;
+        o.count(&format!("import-gaps:{}", crate::gen::cfg_text(cfg)));
+        // every declaration verbatim, in the input order
+        let mut pos = 0usize;
+        let mut bad = None;
+        for d in decl {
+            match r.out[pos..].find(d.as_str()) {
+                Some(p) => pos += p + d.len(),
+                None => { bad = Some(d.clone()); break; }
+            }
+        }
+        if let Some(d) = bad {
+            o.direct_failures.push(json!({"sig": "c17:declaration-outside-selection-changed", "what": format!("the selection {:?} consists of lines between the declarations of a run, yet `{}` is not found verbatim (in input order) in the output", sel, d), "config": crate::gen::cfg_text(cfg), "src": src, "out": r.out}));
+        }
+        if o.samples.len() < 5 && !cfg.is_empty() {
+            o.sample(json!({"family": "import-gaps", "selection": sel, "config": crate::gen::cfg_text(cfg), "src": src}));
+        }
+    }
+}
+
 // ------------------------------------------------------------------ fixtures: the three selection laws
 
 /// a `#` followed (blanks apart) by `[` or `!`
@@ -953,6 +1037,7 @@ pub fn run(tier: &str, seed: u64, out: &Path) -> i32 {
     let mut rng = Rng::new(seed ^ 0xc17);
     algebra(&mut o, &mut rng, thorough);
     generated(&mut o, &mut rng, thorough);
+    import_gaps(&mut o, &mut rng, thorough);
     fixtures(&mut o, &mut rng, thorough);
     probes(&mut o);
     o.notes.push("correspondence cases go to the model (per_op); the e2e comparisons are direct evaluations: one per (program, selection) text comparison, per pair-vs-union comparison, per diagnostics check, four per fixture; non-trivial e2e case = the selection formats some pieces and leaves others verbatim".into());
